@@ -72,6 +72,19 @@ void explore13(Options const& o, std::vector<Shim*> const& shims, std::vector<Sh
     Shim* s = shims[ci];
     rec.count(std::string("configs_where_sqrt()_runs.") + (s->sqrt_algo == 1 ? "abacus" : s->sqrt_algo == 2 ? "std" : "unknown"), 1);
     bool big = ci == 1 || ci == 6 % shims.size();
+    // the same function must not have two values for one argument: sqrt of a compile-time-constant argument (visible to the
+    // optimiser) lies between the values for the opaque neighbours x-1 and x+1, and satisfies the accuracy clause itself
+    {
+    LocalViol lv(rec); int c_shape = rec.cls("C13.sqrt.constant_argument_breaks_monotonicity_or_accuracy");
+    const int ops[3] = { U_SQRT_ABACUS, U_SQRT_STD, U_SQRT };
+    for( int oi = 0; oi < 3; ++oi ) for( int ki = 0; ki < s->fm_constarg_count(0); ++ki )
+      {
+      i64 k = s->fm_constarg_value(0, ki); if( k < 1 || k >= LIM47 ) continue;
+      i64 cv = s->fm_un_constarg(ops[oi], ki), lo = s->fm_un(ops[oi], k - 1), hi = s->fm_un(ops[oi], k + 1);
+      if( !C13::ok(k, cv) || cv < lo || cv > hi ) lv.hit(c_shape, (static_cast<u64>(ci) << 56) | (9ull << 52) | static_cast<u64>(oi * 64 + ki), [=]{ return ex1(s, SQ_N[oi], "argument is a compile-time constant", {{"x",to_s(k)}}, "between f(x-1)=" + to_s(lo) + " and f(x+1)=" + to_s(hi) + " (opaque arguments), within 1 ulp", to_s(cv), "constarg", {to_s(oi), to_s(ki)}); });
+      }
+    rec.add_states(3 * 24, 9 * 24, 3 * 24);
+    }
     for( int oi = 0; oi < 3; ++oi )
       {
       u64 ob = (static_cast<u64>(ci) << 56) | (static_cast<u64>(oi) << 52);
@@ -110,6 +123,11 @@ void explore13(Options const& o, std::vector<Shim*> const& shims, std::vector<Sh
 void replay13(Options const& o, Shim* s, Recorder& rec)
   {
   C13 c(rec); DirectViol d{rec};
+  if( o.rcase == "constarg" )
+    { int oi2 = static_cast<int>(parse_i64(o.rin.at(0))), ki = static_cast<int>(parse_i64(o.rin.at(1))); const int ops[3] = { U_SQRT_ABACUS, U_SQRT_STD, U_SQRT };
+      i64 k = s->fm_constarg_value(0, ki), cv = s->fm_un_constarg(ops[oi2], ki), lo = s->fm_un(ops[oi2], k - 1), hi = s->fm_un(ops[oi2], k + 1);
+      if( !C13::ok(k, cv) || cv < lo || cv > hi ) rec.viol(rec.cls("C13.sqrt.constant_argument_breaks_monotonicity_or_accuracy"), 0, [&]{ return ex1(s, SQ_N[oi2], "constant argument", {{"x",to_s(k)}}, "in [" + to_s(lo) + "," + to_s(hi) + "]", to_s(cv), o.rcase, o.rin); });
+      rec.add_states(1,1,1); return; }
   int oi = static_cast<int>(parse_i64(o.rin.at(0))); i64 x = parse_i64(o.rin.at(1));
   if( o.rcase == "val" ) { c.val(s, oi, x, s->fm_un(SQ_OPS[oi], x), 0, d); i64 out; s->fm_un_range(SQ_OPS[oi], x, 1, &out); c.val(s, oi, x, out, 0, d);
                            if( x >= 0 ) { i64 r = static_cast<i64>(std::llround(std::sqrt(static_cast<long double>(x)))); if( r * r == x && s->fm_un(SQ_OPS[oi], x) != r * 256 ) rec.viol(c.c_square[oi], 0, [&]{ return ex1(s, SQ_N[oi], "exact square", {{"x",to_s(x)}}, to_s(r * 256), to_s(s->fm_un(SQ_OPS[oi], x)), o.rcase, o.rin); }); } }
